@@ -220,6 +220,11 @@ func runC14(c *run.Ctx) {
 		`<p style=" ">`, `<p style="">`, `<p style="  ;">`, `<span style="color: red\ ;">x</span>`, "<p style=\"color: red\\\t;\">", `<p style="color: \">`, `<p style="}">`,
 		`<p style="transform: q q q q">`, `<iframe sandbox="allow-formsx allow">`, `<b data-=1 data-x>`, `<img crossorigin>`)
 	SeqsS(c, "c14f", append(fragAll(), extra...), 0, kf, func(in []byte, _ []int) { entry(in) })
+	// token-loop alphabet: one token of every class the loop's bookkeeping distinguishes (kept, dropped for lack of
+	// attributes, disallowed, skip-content, void, self-closing, pattern-matched, end tags of each), every sequence <=4
+	loopToks := []string{"t", "<b>", "</b>", "<a>", "</a>", `<a href="http://e.x/">`, "<span>", "</span>", "<x>", "</x>", "<object>", "</object>", "<title>", "</title>",
+		"<br>", "<img>", "<b/>", "<a/>", "<my-x id=a>", "</my-x>", "<my-y>", "</my-y>", "<!-- c -->"}
+	SeqsS(c, "c14loop", loopToks, 3, 4, func(in []byte, _ []int) { entry(in) })
 	// the special alphabets of the other checks, in their contexts: attribute lists on link / media / generic elements, URL strings, style declarations
 	la := append(append(append([]string{}, linkAttrAlphabet()...), c02Attrs...), c12MediaAttrs...)
 	la = append(la, c12FrameAttrs...)
